@@ -21,6 +21,7 @@ INV = """(
     and forall('k', s.V[k] == (s.at[k] != null and s.at[k].value is not NULL), s.V[k])
     and forall('k', implies(s.V[k], s.M[k] == s.at[k].value), s.M[k])
     and forall('n', implies(s.N[n], n.counter == cext(s.V, n.path)), n.counter)
+    and forall('n', implies(s.N[n] and n.children is None, n.counter == 0), n.counter)
 )"""
 
 NODE = "Ref[TrieDictNode]"
@@ -40,6 +41,8 @@ LINK_GHOST = [
     "self.N = store(self.N, child, True)",
     "self.at = store(self.at, snoc(node.path, token), child)",
 ]
+
+LP_BOUND = "forall('k', implies(self.at[k] != null and pre(k, key(prefix)), klen(k) <= g_i), (self.at[k], pre(k, key(prefix))))"
 
 MODULE = {
     "file": "ural/classes/trie_dict.py",
@@ -61,6 +64,8 @@ MODULE = {
         "haschild": (["n_", "t_"], "n_.children is not None and t_ in n_.children"),
         "child": (["n_", "t_"], "n_.children[t_]"),
         "Inv": (["s"], INV),
+        # a valued node has no children  (=> the stored keys form an antichain); maintained by HostnameTrieSet
+        "Leafy": (["s"], "forall('n', implies(s.N[n] and n.value is not NULL, n.children is None), n.value)"),
         # number of stored keys = what len() must report (the empty key counts)
         "card": (["s"], "cext(s.V, eps) + b2i(s.V[eps])"),
     },
@@ -96,7 +101,8 @@ MODULE = {
                 1: {"index": "g_i", "invariant": WALK_INV + [
                     "Inv(self)",
                     "len(visited_nodes) == g_i",
-                    "forall('m', implies(0 <= m and m < g_i, visited_nodes[m] == self.at[take(prefix, m)]), visited_nodes[m])",
+                    "forall('m', implies(0 <= m and m < g_i, visited_nodes[m] == self.at[take(prefix, m)]"
+                    " and visited_nodes[m].children is not None), visited_nodes[m])",
                 ]},
                 2: {"index": "g_j", "invariant": [
                     "forall('n', implies(self.N[n], n.counter == cext(self.V, n.path)"
@@ -109,6 +115,83 @@ MODULE = {
                 "node.value = value": [
                     "self.V = store(self.V, node.path, True)",
                     "self.M = store(self.M, node.path, value)",
+                ],
+            },
+        },
+        "TrieDict.longest_matching_prefix_value": {
+            "types": dict(COMMON_TYPES, g_has="Bool", g_best="Key"),
+            "requires": ["Inv(self)"],
+            "returns": "Val",
+            "ensures": ["result == ite(lp_has(self.V, key(prefix)), self.M[lp_key(self.V, key(prefix))], None)"],
+            "ghost_entry": ["g_has = False"],
+            "loops": {1: {"index": "g_i", "invariant": WALK_INV + [
+                "g_has == (last_value is not NULL)",
+                "implies(g_has, self.V[g_best] and self.M[g_best] == last_value and pre(g_best, key(prefix)) and klen(g_best) < g_i)",
+                "forall('k', implies(self.V[k] and pre(k, key(prefix)) and klen(k) < g_i, g_has and klen(k) <= klen(g_best)), (self.V[k], pre(k, key(prefix))))",
+            ]}},
+            "ghost_after": {"last_value = node.value": ["g_has = True", "g_best = node.path"]},
+            "asserts": {"break": [
+                "self.at[take(prefix, g_i + 1)] == null",
+                "forall('k', implies(self.at[k] != null and pre(k, key(prefix)), klen(k) <= g_i), (self.at[k], pre(k, key(prefix))))",
+            ], "return node.value": [LP_BOUND, "klen(node.path) == g_i", "pre(node.path, key(prefix))", "self.V[node.path]",
+                                      "lp_has(self.V, key(prefix))", "klen(lp_key(self.V, key(prefix))) == g_i",
+                                      "lp_key(self.V, key(prefix)) == node.path"],
+               "return last_value if last_value is not NULL else None": [
+                LP_BOUND, "not self.V[node.path]",
+                "implies(g_has, lp_has(self.V, key(prefix)) and lp_key(self.V, key(prefix)) == g_best)",
+                "implies(not g_has, not lp_has(self.V, key(prefix)))"],
+            },
+        },
+        "TrieDict.set_and_prune_if_shorter": {
+            "types": dict(COMMON_TYPES, g_j="Int", g_k="Int", g_V0="Map[Key,Bool]"),
+            "requires": ["Inv(self)", "Leafy(self)", "value is not NULL"],
+            "returns": "NoneType",
+            "modifies": ["TrieDictNode.*", "TrieDict.N", "TrieDict.at", "TrieDict.V", "TrieDict.M"],
+            "ensures": [
+                "Inv(self)", "Leafy(self)",
+                "implies(exists('k', old(self.V)[k] and spre(k, key(prefix)), old(self.V)[k]),"
+                " self.V == old(self.V) and self.M == old(self.M))",
+                "implies(not exists('k', old(self.V)[k] and spre(k, key(prefix)), old(self.V)[k]),"
+                " forall('k', self.V[k] == (k == key(prefix) or (old(self.V)[k] and not spre(key(prefix), k))), self.V[k]))",
+                "implies(not exists('k', old(self.V)[k] and spre(k, key(prefix)), old(self.V)[k]),"
+                " forall('k', implies(self.V[k], self.M[k] == ite(k == key(prefix), value, old(self.M)[k])), self.M[k]))",
+            ],
+            "loops": {
+                1: {"index": "g_i", "invariant": WALK_INV + [
+                    "Inv(self)", "Leafy(self)",
+                    "len(visited_nodes) == g_i",
+                    "forall('m', implies(0 <= m and m < g_i, visited_nodes[m] == self.at[take(prefix, m)]"
+                    " and visited_nodes[m].children is not None), visited_nodes[m])",
+                    "forall('k', implies(self.V[k] and spre(k, key(prefix)), klen(k) >= g_i), (self.V[k], pre(k, key(prefix))))",
+                ]},
+                2: {"index": "g_j", "invariant": [
+                    "forall('n', implies(self.N[n], n.counter == ite(pre(n.path, key(prefix)) and klen(n.path) < g_j,"
+                    " cext(g_V0, n.path) - (node.counter - 1), cext(g_V0, n.path))), n.counter)",
+                ]},
+                3: {"index": "g_k", "invariant": [
+                    "forall('n', implies(self.N[n], n.counter == cext(self.V, n.path)"
+                    " + b2i(pre(n.path, key(prefix)) and klen(n.path) < g_k)), n.counter)",
+                ]},
+            },
+            "ghost_after": {
+                "node.children = {token: child}": LINK_GHOST,
+                "node.children[token] = child": LINK_GHOST,
+                "node.children = None": [
+                    "self.N = maplam('n', self.N[n] and not spre(node.path, n.path))",
+                    "self.at = maplam('k', ite(spre(node.path, k), null, self.at[k]))",
+                    "g_V0 = self.V",
+                    "self.V = prune(self.V, node.path)",
+                ],
+                "node.value = value": [
+                    "self.V = store(self.V, node.path, True)",
+                    "self.M = store(self.M, node.path, value)",
+                ],
+            },
+            "asserts": {
+                "return": ["self.V[node.path]", "spre(node.path, key(prefix))"],
+                "if node.children is not None:": [
+                    "implies(node.children is None, node.counter == 0 and cext(self.V, node.path) == 0)",
+                    "implies(node.children is None, forall('k', implies(self.V[k], not spre(node.path, k)), self.V[k]))",
                 ],
             },
         },
